@@ -23,6 +23,8 @@ import OtterVerif.Conc.MpscSkeleton
 import OtterVerif.Conc.DrainSkeleton
 import OtterVerif.Gen.Skeleton
 import OtterVerif.Conc.MpscConc
+import OtterVerif.Proofs.MpscGen
+import OtterVerif.Pin.MpscSites
 
 namespace OtterVerif.Props.C16
 open OtterVerif
@@ -150,5 +152,31 @@ theorem maintenance_drains_before_handed_over_task :
 
 /-! ### Non-vacuity -/
 example : (Gen.MpscIdx.modifiedCalcElementOffset 10 6).toNat = 1 ∧ (Gen.MpscIdx.nextArrayOffset 6).toNat = 4 := by decide
+
+/-! ### The slow path of TryPush, over the regenerated computations of internal/deque/queue/mpsc.go -/
+
+/-- an offer is refused only when the buffer holds its maximum: for ALL index values, also for a producer whose
+    producerIndex is stale (consumerIndex ahead of it, so that `pIndex - cIndex` wraps) -/
+theorem c16_gen_refused_only_when_full (maxCap mask pIndex cIndex : BitVec 64) (limitCAS indexCAS : Bool)
+    (h : Proofs.MpscGen.slowPathG maxCap mask pIndex cIndex limitCAS indexCAS = 2#8) : pIndex - cIndex = maxCap :=
+  Proofs.MpscGen.refuse_only_when_full maxCap mask pIndex cIndex limitCAS indexCAS h
+
+/-- with room in the current chunk the limit is extended: no refusal, no resize -/
+theorem c16_gen_room_extends_limit (maxCap mask pIndex cIndex : BitVec 64) (l i : Bool)
+    (h : BitVec.ult pIndex (cIndex + Proofs.MpscGen.capG maxCap mask) = true) :
+    Proofs.MpscGen.slowPathG maxCap mask pIndex cIndex l i = (if l then 0#8 else 1#8) :=
+  Proofs.MpscGen.room_extends_limit maxCap mask pIndex cIndex l i h
+
+/-- the conditions of the sequential model (Impl.Mpsc.tryPush) are the code's -/
+theorem c16_gen_model_conditions (maxCap mask pIndex cIndex limit : BitVec 64) :
+    Gen.MpscSites.MPSC_TryPush_c1 pIndex limit = BitVec.ule limit pIndex ∧
+    Gen.MpscSites.MPSC_pushSlowPath_c0 (Proofs.MpscGen.capG maxCap mask) cIndex pIndex
+      = BitVec.ult pIndex (cIndex + Gen.MpscIdx.getCurrentBufferCapacity maxCap mask) ∧
+    Gen.MpscSites.MPSC_pushSlowPath_c1 (Gen.MpscSites.MPSC_availableInQueue_r0 cIndex maxCap pIndex)
+      = (Gen.MpscIdx.availableInQueue maxCap pIndex cIndex == 0) :=
+  Proofs.MpscGen.model_conditions maxCap mask pIndex cIndex limit
+
+example : Proofs.MpscGen.slowPathG 8#64 6#64 8#64 0#64 true true = 2#8 := by decide
+
 
 end OtterVerif.Props.C16
